@@ -35,12 +35,14 @@ const mod = "github.com/alpacahq/marketstore/v4/"
 var pkgPaths []string
 var wantConsts = map[string][]string{}
 var wantSkeletons []string
+var wantTables []string
 
 type wants struct {
 	Packages  []string            `json:"packages"`
 	Consts    map[string][]string `json:"consts"`
 	Skeletons []string            `json:"skeletons"`
 	Accesses  []string            `json:"accesses"` // see accesses.go
+	Tables    []string            `json:"tables"`   // "pkg:Var": package-level slice literal of structs with constant fields
 }
 
 func loadWants(dir string) {
@@ -75,6 +77,16 @@ func loadWants(dir string) {
 					seenC[p+"."+n] = true
 					wantConsts[p] = append(wantConsts[p], n)
 				}
+			}
+		}
+		for _, tb := range w.Tables {
+			addPkg(strings.SplitN(tb, ":", 2)[0])
+			dup := false
+			for _, x := range wantTables {
+				dup = dup || x == tb
+			}
+			if !dup {
+				wantTables = append(wantTables, tb)
 			}
 		}
 		for _, ac := range w.Accesses {
@@ -207,6 +219,81 @@ func main() {
 				fmt.Fprintf(&b, "def %s_f64_num : Int := %s\ndef %s_f64_den : Nat := %s\n", ln, fr.Num().String(), ln, fr.Denom().String())
 			}
 		}
+	}
+
+	// ---- tables: package-level `var X = []T{{c1, c2, ...}, ...}` with constant fields, in SOURCE ORDER
+	sort.Strings(wantTables)
+	for _, tb := range wantTables {
+		pr := strings.SplitN(tb, ":", 2)
+		p := byPath[pr[0]]
+		if p == nil {
+			fail("package %s not loaded", pr[0])
+		}
+		var lit *ast.CompositeLit
+		for _, f := range p.Syntax {
+			for _, d := range f.Decls {
+				gd, ok := d.(*ast.GenDecl)
+				if !ok {
+					continue
+				}
+				for _, sp := range gd.Specs {
+					vs, ok := sp.(*ast.ValueSpec)
+					if !ok {
+						continue
+					}
+					for i, n := range vs.Names {
+						if n.Name == pr[1] && i < len(vs.Values) {
+							lit, _ = vs.Values[i].(*ast.CompositeLit)
+						}
+					}
+				}
+			}
+		}
+		if lit == nil {
+			fail("table %s: composite literal not found", tb)
+		}
+		var rows []string
+		sig := ""
+		for _, e := range lit.Elts {
+			if kv, ok := e.(*ast.KeyValueExpr); ok {
+				e = kv.Value
+			}
+			if u, ok := e.(*ast.UnaryExpr); ok && u.Op == token.AND {
+				e = u.X
+			}
+			cl, ok := e.(*ast.CompositeLit)
+			if !ok {
+				fail("table %s: element is not a composite literal", tb)
+			}
+			var cells, kinds []string
+			for _, fe := range cl.Elts {
+				if kv, ok := fe.(*ast.KeyValueExpr); ok {
+					fe = kv.Value
+				}
+				tv := p.TypesInfo.Types[fe]
+				if tv.Value == nil {
+					fail("table %s: non-constant field %s", tb, types.ExprString(fe))
+				}
+				switch tv.Value.Kind() {
+				case constant.String:
+					cells = append(cells, fmt.Sprintf("%q", constant.StringVal(tv.Value)))
+					kinds = append(kinds, "String")
+				case constant.Int:
+					cells = append(cells, "("+tv.Value.ExactString()+")")
+					kinds = append(kinds, "Int")
+				default:
+					fail("table %s: unsupported constant kind in %s", tb, types.ExprString(fe))
+				}
+			}
+			k := strings.Join(kinds, " × ")
+			if sig == "" {
+				sig = k
+			} else if sig != k {
+				fail("table %s: rows of different shape", tb)
+			}
+			rows = append(rows, "("+strings.Join(cells, ", ")+")")
+		}
+		fmt.Fprintf(&b, "\n/-- rows of `%s` in source order -/\ndef %s : List (%s) := [\n  %s]\n", tb, leanName(pr[0]+"."+pr[1]), sig, strings.Join(rows, ",\n  "))
 	}
 
 	// ---- attributeMap (utils/io): enum value, name, size
